@@ -319,6 +319,23 @@ def run_one(seed, tape, opts):
                 if not p.lost and not p.closed_local:
                     p.transport.write(b"W" * ctx.recsize)
 
+    def on_sub_event(side_, p_, kind_, data_):
+        # an application that throttles from inside dataReceived (the usual
+        # place to do it): the rest of the segment that is being parsed -
+        # more DATA, a CLOSE - is still dispatched afterwards
+        if mode != "rotation" and kind_ == "data" and p_.role == "acceptor" \
+                and not app_paused.get(p_) and not p_.lost and \
+                tape.choose(4, "pause_in_cb") == 0:
+            app_pause_reqs[0] += 1
+            sim.note("probe.pause_from_inside_dataReceived")
+            try:
+                p_.transport.pauseProducing()
+                app_paused[p_] = True
+            except Exception as e:
+                V("C15.app_pause_raised." + type(e).__name__, "inbound data "
+                  "is paused exactly while an application asked for a pause",
+                  "pauseProducing() inside dataReceived raised %r" % (e,))
+    w.on_sub_event = on_sub_event
     next_op = [0]
 
     def spaced_op():
